@@ -103,3 +103,128 @@ PROPS["C06"] = dict(
               "RotatedBitboard.Xor, NewRotatedBitboard, PawnCaptureboard -> Model.Attack; the seven index tables -> Gen.Tables (generated)"],
     exhaustive=True,
 )
+
+PROPS["C02"] = dict(
+    modules=["Morlock.Props.C02", "Morlock.Props.GenTie"],
+    streams=["c02", "playq"],
+    level_text="Lean theorems (full): a relation Rep p b ('bitboard position p represents mailbox board b': occupancy, colour sets, twelve piece sets, three rotated boards, "
+               "nothing set >= 64) is established by NewPosition and preserved by every xor; for every move whose metadata is accurate (MetaOK, decidable) Position.Move yields "
+               "a position representing exactly the board the rules prescribe (origin emptied, promoted piece, e.p. victim removed, rook hop), with castling rights = old "
+               "minus those of every home square touched and the e.p. target set iff double step; abs p' = Spec.apply (abs p) m; lifted over all move sequences "
+               "(reachable_rep, play_refines) - so a redundant view can never disagree later. 'MetaOK holds for every generated move' is kernel-checked on 163 moves of "
+               "four positions and otherwise decided by the differential stream (that link belongs to C01).",
+    level_note="Trusted: Lean kernel; Model.Position tied by apply/playq streams (successor FEN, rights, e.p., views agreement after every move, source position untouched).",
+    technique="Lean 4 refinement proof (Rep relation preserved by xor; Move = <= 4 xors) + differential impl/model/spec on all pseudo-legal moves of generated positions",
+    rule="every pseudo-legal move (legal and illegal) of generated positions applied on impl, model and spec; played lines without re-decoding; non-trivial = special move kinds "
+         "(capture, e.p., castling, promotion, jump) / lines containing them; distinct by (position, move) or line",
+    partial=["that every move emitted by PseudoLegalMoves satisfies MetaOK/ClassOK is proved only by evaluation on concrete positions (general proof is part of C01)"],
+    modelled=["board/position.go: NewPosition, xor, Move, Square, IsEmpty; board/move.go: EnPassantTarget, EnPassantCapture, CastlingRookMove, CastlingRightsLost; RotatedBitboard.Xor"],
+)
+
+PROPS["C07"] = dict(
+    modules=["Morlock.Props.C07"],
+    streams=["game"],
+    level_text="Lean theorems (full, for EVERY table z with z.enpassant 0 = 0): the incremental update ZobristTable.Move applied to Hash(p) equals Hash of the successor for "
+               "every accurate move (all kinds: capture, promotion, e.p., both castlings), and two represented positions differing in exactly one square / the rights / the "
+               "e.p. target / the side have hashes differing by the xor of the two keys involved (hence different when those keys differ). Over push/pop/fork the board hash is "
+               "the node's stored hash (C08), so path independence follows. Tie: Board.Hash() vs Hash-from-scratch after every operation for table seeds 0, 1 and a random one, "
+               "keys recovered through the exported Hash so that impl vs model is bit-exact.",
+    level_note="Trusted: Lean kernel; Model.Zobrist tied bit-exactly by the game stream; math/rand table generation not modelled (the theorems quantify over all tables).",
+    technique="Lean 4 proof (hash as xor-fold over squares; Move touches <= 4 squares) + differential game histories with hash columns",
+    rule="game histories (push/pop/fork over up to 4 boards) from corpus/synthetic starts with castling, e.p., promotions; hash and scratch hash printed after every op; "
+         "non-trivial = history with a special move, draw, fork or pop; distinct by script",
+    modelled=["board/zobrist.go: Hash, Move -> Model.Zobrist"],
+)
+
+PROPS["C08"] = dict(
+    modules=["Morlock.Props.C08"],
+    streams=["game"],
+    level_text="Lean theorems (full) on an arena model of the pointer-linked history: push then pop restores every observation (position, side, hash, clock, ply, full moves, "
+               "castled flags, last / second-to-last move, HasMoved(k) for every k, the repetition map) and leaves a not-drawn result, at any nesting depth (pushes_pops), "
+               "play continues identically afterwards (continue_identically), operations on a fork and on the original that stay at or above the fork point are isolated from "
+               "each other for every interleaving (fork_isolated), both see the common past (fork_shares_past, fork_replays). The hypotheses that are needed are proved "
+               "necessary (castled_flag_lost, pop_below_fork_clobbers).",
+    level_note="Trusted: Lean kernel; Model.Board arena transcription tied by the game stream (all getters of all boards after every operation).",
+    technique="Lean 4 proof over an append-only arena (views erased of indices; separation invariant for forks) + differential op sequences over up to 4 boards",
+    rule="random interleavings of push / pop / fork / switch over 1-4 boards, pops never below a fork point; all getters of every board compared after every op; "
+         "non-trivial = script with fork or pop or special move; distinct by script",
+    partial=["castled flags are restored under CastleOnce (a side castles at most once along a line - guaranteed by chess, not checked by the board)"],
+    modelled=["board/board.go: NewBoard, Fork, PushMove, PopMove, LastMove, SecondToLastMove, HasMoved, HasCastled, getters -> Model.Board"],
+)
+
+PROPS["C05"] = dict(
+    modules=["Morlock.Props.C08", "Morlock.Props.GenTie"],
+    streams=["game"],
+    level_text="Decided on every run by comparing, after every push/pop/fork of generated game histories, the result the board reports with the draw conditions recomputed from the "
+               "WHOLE history by the reference (Spec.Game: occurrences of the position in the full line incl. the start, standard half-move clock from the set-up clock, "
+               "material rule with (file+rank) colour). Lean: the limits 3/5/100 and the one-colour mask are re-proved from the source on every run (GenTie), and the history "
+               "sharing needed for 'forked boards detect repetitions against their common past' is a theorem (C08.fork_shares_past, fork_replays). The refinement "
+               "'reported draw = drawNow(history)' itself is not yet a theorem.",
+    level_note="Trusted: Lean kernel; Model.Board tied by the game stream; Spec.Game as the reference. Reason precedence when several conditions hold is not prescribed: any holding reason is accepted.",
+    technique="differential impl/model/spec over game histories (repetition shuffles, clocks near 100, captures to bare kings, forks) + Lean facts on limits, mask, shared history",
+    rule="histories in 4 styles (biased, shuffling, quiet, mixed) from 20 draw-prone starts + corpus + synthetic; non-trivial = history reaching a draw (rep3/rep5/np/mat), adjudication, fork, pop or special move; distinct by script",
+    partial=["complete/sound refinement theorem (board result = drawNow of history) not proved: exploration only"],
+    modelled=["board/board.go: PushMove draw logic, identicalPositionCount, updateNoProgress, AdjudicateNoLegalMoves; position.go HasInsufficientMaterial -> Model.Board / Model.Position"],
+)
+
+SEARCH_MODELLED = ["search/alphabeta.go: AlphaBeta.Search, runAlphaBeta.search; quiescence.go; minimax.go; exploration.go MVVLVA; search.go Leaf, childBound; "
+                   "transposition.go (sequential reading); board/movelist.go + container/heap Init/Pop -> Model.Search, Model.TT, Model.MoveList"]
+
+PROPS["C13"] = dict(
+    modules=["Morlock.Props.C13Window", "Morlock.Props.C09"],
+    streams=["c13"],
+    timeout=dict(quick=900, thorough=6000),
+    level_text="Lean (so far): the window handed to a child is the exact inverse image of the parent window under the transformation applied to the child's result "
+               "(lift_childBound, all scores a parent can see), the pre-repair window is proved wrong on a concrete mate window, the order facts of C09. The Clip theorem "
+               "for the full transcription is in progress. Tie: searches with random windows (bounds -inf, mate +-k, heuristic values, +inf) on generated positions and "
+               "histories, impl vs model exact (nodes, score, PV), impl vs Clip of the exhaustive reference negamax (interval check in the C09 order).",
+    level_note="Trusted: Lean kernel; Model.Search tied exactly (node counts and PV tie-breaks included); Spec.Search exhaustive negamax with full-history draw rules.",
+    technique="Lean 4 lemmas on the window transformation + differential search with random windows against exhaustive negamax",
+    rule="positions with histories (corpus, mate endgames, synthetic) x depth 0-4 x 4 configurations x 5 windows; non-trivial = distinct script; mate-valued bounds counted in the distribution",
+    partial=["alphabeta_clip / quiescence_clip for all depths and windows: proof in progress; until then exploration"],
+    modelled=SEARCH_MODELLED,
+)
+
+PROPS["C03"] = dict(
+    modules=["Morlock.Props.C13Window", "Morlock.Props.C09"],
+    streams=["c03"],
+    timeout=dict(quick=900, thorough=6000),
+    level_text="Tie: full-window searches on generated positions WITH their game histories (repetition shuffles, clocks near 100), 4 configurations (full / no-under-promotion exploration x "
+               "static / capture-quiescence leaf): impl vs model exact (nodes, score, PV), impl vs the exhaustive reference negamax over Spec.Game (value, set of optimal first "
+               "moves), PV replayed for legality and length, every getter of the board compared before/after the search; the repository's own Minimax as a second opinion at greater depth. "
+               "Lean: window/ordering lemmas (C13Window, C09); the exactness theorem is a corollary of the C13 Clip theorem in progress.",
+    level_note="Trusted: Lean kernel; Model.Search tied exactly; Spec.Search reference. At a root where a draw can be claimed the root is searched (a move is wanted) - the reference does the same.",
+    technique="differential search against exhaustive negamax over full game histories + Lean lemmas; corollary of C13",
+    rule="lines of 0-24 plies from corpus / mate endgames / synthetic starts x depth 0-4 (deep only in sparse positions) x 4 configurations; non-trivial = distinct script; mate scores counted",
+    partial=["exact = minimax theorem pending (C13 clip); exhaustive reference quiescence only affordable with <= 12 men (busy positions: impl vs model only)"],
+    modelled=SEARCH_MODELLED,
+)
+
+PROPS["C11"] = dict(
+    modules=["Morlock.Props.C13Window", "Morlock.Props.C09"],
+    streams=["c11"],
+    timeout=dict(quick=900, thorough=6000),
+    level_text="Tie: sequences of searches sharing one table (iterative deepening 1..d, a repeated search, successive positions of a game), table sizes 32 B - 1 MB, with and "
+               "without the min-depth write filter, on histories in which no repetition / fifty-move draw can arise inside the tree: impl vs model exact (the model threads the same "
+               "table: slot = hash mod n, full-hash check, replacement value), impl vs exhaustive reference negamax (root score equal to the table-less value, first PV move optimal). "
+               "Lean: lemmas only so far (C13Window, C09); Sound(tt) invariant proof planned.",
+    level_note="Trusted: Lean kernel; Model.TT/Model.Search tied exactly; hash collisions on the 64-bit key are outside the property ('barring collisions').",
+    technique="differential search sequences with shared transposition table against table-free exhaustive negamax",
+    rule="no-repeat histories x iterative deepening + repeat + 2 successive game positions x 5 table sizes x 2 seeds; non-trivial = distinct script",
+    partial=["Sound(tt) preservation theorem not yet proved: exploration only"],
+    modelled=SEARCH_MODELLED,
+)
+
+PROPS["C12"] = dict(
+    modules=["Morlock.Props.C13Window", "Morlock.Props.C09"],
+    streams=["c12"],
+    timeout=dict(quick=900, thorough=6000),
+    level_text="Tie: cancellation forced at the k-th poll of the search context (a context whose Done() is the poll: no hook needed) for k = 1,2,3, last-1, last, last+1 and random k "
+               "(thorough: every k), with tables of 0 - 1 MB: the search must report ErrHalted, hand the board back (all getters equal), and a following search with the same table must "
+               "return exactly what the reference says; impl vs model exact (the model polls at the same places). Lean: lemmas only so far.",
+    level_note="Trusted: Lean kernel; Model.Search poll placement tied by exact agreement on halted/not-halted for every k tried.",
+    technique="fault enumeration over cancellation polls + differential against model and reference",
+    rule="positions x depth 1-3 x cancel point k over the polls of the undisturbed search; sequence halt -> search (optionally search -> halt -> search); non-trivial = distinct script",
+    partial=["leaves_nothing theorem (Sound(tt) kept for every poll index) not yet proved: exploration only"],
+    modelled=SEARCH_MODELLED,
+)
